@@ -24,11 +24,12 @@ GenNext ==
      \/ \E t \in RandomSubset(2, Txs) : Submit(t)
      \/ \E p \in 1..n : \E seq \in RandomSubset(3, ValidSeqs(p)) : n < MaxBlocks /\ NewBlock(p, seq)
      \/ \E p \in RandomSubset(1, 1..n) : \E seq \in RandomSubset(1, {q \in TxSeqs : q # <<>>}) : MkBadBlock(p, seq)
-     \/ \E b \in {c \in 2..n : Parent(c) = ptr} : Play(b)
-     \/ \E b \in RandomSubset(1, 2..n) : Play(b)
+     \/ \E b \in {c \in 2..n : Parent(c) = ptr} : Play(b, "*")
+     \/ \E b \in RandomSubset(1, 2..n) : Play(b, "*")
      \/ (pool # {} /\ Mine(TopoOrder(pool)))
      \/ \E b \in RandomSubset(1, {0}) : Mine(TopoOrder(pool))
      \/ \E d \in 1..n : Walk(d, FALSE, {"*"})
+     \/ \E d \in RandomSubset(1, 1..n) : Walk(d, TRUE, {"*"})      \* pruning walk
      \/ Restart
 GenSpec == Init /\ [][GenNext]_vars
 =============================================================================
